@@ -7,6 +7,7 @@ CONSTANTS
   MaxLoss = 5
   MaxNegLoss = 2
   MaxRestarts = 0
+  MaxSlow = 0
   PeerModes <- ModesAll
   DenyReplies <- DenyOne
   AckTails <- TailsRssi
